@@ -33,6 +33,8 @@ ASSUMPTIONS = ["self.server is a normalised (host, port) tuple or a socket path"
 NOT_COVERED = ["TLS over UNIX sockets (the code never wraps them; the TLS clause is read for TCP)", "asynchronous (non-Exception) interruptions: C10",
                "'after any failed call the next call opens a fresh connection' is the conjunction of this contract (raising exit => self.sock is None) with C01 (lazy _connect in every exchange function)"]
 BUDGET = {"quick": 20, "thorough": 60}
+DEPENDS = ["C01"]      # "after any failed call the next call opens a fresh connection": every raising exit of the exchange functions
+                       # (_misc_cmd, _store_cmd, _fetch_cmd) leaves self.sock None with the socket closed - their C01 contracts, re-proved here
 
 
 def mk_client(st, server_kind, no_delay, tls, keepalive, had_sock):
